@@ -352,22 +352,30 @@ def malformed_py_stream(rng, n):
     return out
 
 
-def compile_programs(ctx, erg, work, progs, vers):
-    """`erg compile` of each program for each target version; returns list of (label, ver, bytes)"""
+def compile_programs(ctx, erg, work, jobs_list, jobs=8):
+    """`erg compile` of (program index, source, target version) triples; returns list of (label, ver, bytes)"""
+    from concurrent.futures import ThreadPoolExecutor
+
+    def one(job):
+        i, src, ver = job
+        d = os.path.join(work, "p%d_%s" % (i, ver.replace(".", "")))
+        os.makedirs(d, exist_ok=True)
+        f = os.path.join(d, "m.er")
+        open(f, "w").write(src)
+        p = sh([erg, "compile", "--py-magic-num", str(MAGIC[ver]), f], cwd=d, env=ctx.erg_env(), timeout=300)
+        pyc = os.path.join(d, "m.pyc")
+        if p.returncode != 0 or not os.path.exists(pyc):
+            return (i, ver, None, (p.stderr or p.stdout)[-300:])
+        return (i, ver, list(open(pyc, "rb").read()), "")
+    with ThreadPoolExecutor(jobs) as ex:
+        res = list(ex.map(one, jobs_list))
     out = []
-    for i, src in enumerate(progs):
-        for ver in vers:
-            d = os.path.join(work, "p%d_%s" % (i, ver.replace(".", "")))
-            os.makedirs(d, exist_ok=True)
-            f = os.path.join(d, "m.er")
-            open(f, "w").write(src)
-            p = sh([erg, "compile", "--py-magic-num", str(MAGIC[ver]), f], cwd=d, env=ctx.erg_env(), timeout=300)
-            pyc = os.path.join(d, "m.pyc")
-            if p.returncode != 0 or not os.path.exists(pyc):
-                ctx.count("program did not compile")
-                ctx.notes.append("program %d does not compile for %s: %s" % (i, ver, (p.stderr or p.stdout)[-300:]))
-                continue
-            out.append(("program %d for %s" % (i, ver), ver, list(open(pyc, "rb").read())))
+    for i, ver, data, err in res:
+        if data is None:
+            ctx.count("program did not compile")
+            ctx.notes.append("program %d does not compile for %s: %s" % (i, ver, err))
+            continue
+        out.append(("program %d for %s" % (i, ver), ver, data))
     return out
 
 
@@ -462,7 +470,7 @@ def run(ctx):
     ctx.cov["rule"] = (
         "constants generated by type (Int/Nat at the i32/u32/u64 and 15-bit-digit boundaries, Float by bit pattern incl. ±0, ±inf, "
         "quiet/signalling NaN, Str of length 0/255/256/65535/65536 incl. non-BMP, Bool, None, Tuple/List nested to depth 4, code "
-        "objects) × targets 3.7–3.11; .pyc files written by `erg compile` for 7 programs × 5 targets, with truncations, byte "
+        "objects) × targets 3.7–3.11; .pyc files written by `erg compile` for 7 programs (quick: 2–3 targets each, thorough: all 5), with truncations, byte "
         "mutations, insertions, deletions; nests at the depth limits; a malformed stream for the reference reader. "
         "non-trivial = distinct case on which python loaded the bytes and the reader returned Ok (constants), or the reader "
         "returned Ok (files)")
@@ -508,19 +516,21 @@ def _run(ctx, proof, h, model, erg, acc, rng, vers, work):
     writer_round(ctx, h, model, pairs, acc, "corpus")
     # ---- (1)(2)(3a) constants
     pairs = [(ver, v) for v in boundary_values(rng) for ver in vers]
-    n = ctx.scale(700, 20000)
+    n = ctx.scale(450, 20000)
     for _ in range(n):
         pairs.append((rng.choice(vers), g_value(rng, 4, allow_other=True)))
-    for _ in range(ctx.scale(4, 40)):
+    for _ in range(ctx.scale(3, 40)):
         pairs.append((rng.choice(vers), [3, g_str_cps(rng, big=True)]))
     pairs.append((rng.choice(vers), [6, [[5]] * 256]))
     pairs.append((rng.choice(vers), [6, [[0, 1]] * 255]))
-    for _ in range(ctx.scale(60, 1500)):
+    for _ in range(ctx.scale(40, 1500)):
         pairs.append((rng.choice(vers), [8, g_code(rng, 3)]))
+    ctx.log("constants: %d cases" % len(pairs))
     writer_round(ctx, h, model, pairs, acc, "constant")
+    ctx.log("constants done")
 
     # ---- reference reader alone: malformed stream + depth limit
-    mal = malformed_py_stream(rng, ctx.scale(1500, 40000))
+    mal = malformed_py_stream(rng, ctx.scale(800, 40000))
     mal += [nest(PY_DEPTH - 1), nest(PY_DEPTH), nest(PY_DEPTH + 1)]
     for ver in vers:
         minor = int(ver.split(".")[1])
@@ -536,14 +546,22 @@ def _run(ctx, proof, h, model, erg, acc, rng, vers, work):
                                      {"ver": ver, "bytes": b if len(b) < 200 else b[:20] + ["... %d bytes" % len(b)]}, o, cm))
             ctx.case(["pymal", ver, b if len(b) < 300 else len(b)], nontrivial=(cm != [-1]))
 
+    ctx.log("reference reader stream done")
     # ---- (3b) .pyc files
-    files = compile_programs(ctx, erg, work, PROGRAMS if ctx.thorough else PROGRAMS, vers)
+    if ctx.thorough:
+        jobs_list = [(i, src, ver) for i, src in enumerate(PROGRAMS) for ver in vers]
+    else:
+        # quick: every program for two targets (rotating, so that every target is covered), the closure program for 3.11
+        jobs_list = sorted(set((i, PROGRAMS[i], ver) for i in range(len(PROGRAMS)) for ver in (vers[i % len(vers)], vers[(i + 2) % len(vers)]))
+                           | {(3, PROGRAMS[3], vers[-1]), (1, PROGRAMS[1], vers[-1])})
+    files = compile_programs(ctx, erg, work, jobs_list)
+    ctx.log("compiled %d files" % len(files))
     if not files:
         raise FrameworkError("no program compiled: cannot produce .pyc files")
     variants = []     # (label, what, original?, bytes)
     for label, ver, data in files:
         variants.append((label, "as written", True, data))
-        for what, b in mutate(rng, data, ctx.scale(25, 400)):
+        for what, b in mutate(rng, data, ctx.scale(20, 400)):
             variants.append((label, what, False, b))
     for label, data in corpus_files:
         variants.append((label, "corpus", False, data))
@@ -552,9 +570,16 @@ def _run(ctx, proof, h, model, erg, acc, rng, vers, work):
         body = [0xE3] + [0] * 20 + [0x73, 0, 0, 0, 0] + [41, 1] + nest(d) + [41, 0] + [41, 0] + [0x73, 0, 0, 0, 0] + \
                [0xFA, 1, 97] + [0xDA, 1, 98] + [0xDA, 1, 98] + [1, 0, 0, 0] + [0x73, 0, 0, 0, 0] + [0x73, 0, 0, 0, 0]
         variants.append(("nest %d" % d, "depth", False, [0xA7, 0x0D, 0x0D, 0x0A] + [0] * 12 + body))
+    # witness of the known finding C15-disassembler: deserialises, but co_code is the single instruction (7, 0): 7 is no opcode of 3.11
+    variants.append(("disassembler witness", "known", False,
+                     [0xA7, 0x0D, 0x0D, 0x0A] + [0] * 12 + [0xE3] + [0] * 20 + [0x73, 2, 0, 0, 0, 7, 0] + [41, 0] * 3 +
+                     [0x73, 0, 0, 0, 0, 0xFA, 1, 97, 0xDA, 1, 98, 0xDA, 1, 98, 1, 0, 0, 0, 0x73, 0, 0, 0, 0, 0x73, 0, 0, 0, 0]))
     blobs = [b for _, _, _, b in variants]
+    ctx.log("files: %d variants" % len(blobs))
     ir = h.run([[2, b] for b in blobs])
+    ctx.log("from_pyc done")
     mr = model.run([[3, FX, b] for b in blobs])
+    ctx.log("model reader done")
     # write(read(file)) = file for files the compiler wrote
     rew_idx = [i for i, (_, _, orig, _) in enumerate(variants) if orig and cls_of(ir[i]) == 0]
     rew = h.run([[4, blobs[i][0] + 256 * blobs[i][1], ir[i][2]] for i in rew_idx]) if rew_idx else []
@@ -580,10 +605,15 @@ def _run(ctx, proof, h, model, erg, acc, rng, vers, work):
         ctx.case(["file", label, what, b if len(b) < 400 else hashlib.sha1(bytes(b)).hexdigest()], nontrivial=(cls_of(ri) == 0),
                  sample={"file": label, "mutation": what, "from_pyc": ["ok", "error", "crash"][cls_of(ri)]} if (not orig and len(ctx.cov["samples"]) < 6 and i % 7 == 0) else None)
     # real files in python + model py_loads (validates the code-object part of the reference reader on real files)
+    obs_files = {}
+    for ver in sorted(set(v for _, v, _ in files)):
+        sel = [(label, data) for label, v, data in files if v == ver]
+        obs = py_loads_all(ctx, ver, [data[16:] for _, data in sel])
+        mps = model.run([[1, int(ver.split(".")[1]), data[16:]] for _, data in sel])
+        for (label, _), o, mp in zip(sel, obs, mps):
+            obs_files[label] = (o, mp)
     for label, ver, data in files:
-        minor = int(ver.split(".")[1])
-        o = py_loads_all(ctx, ver, [data[16:]])[0]
-        mp = model.run([[1, minor, data[16:]]])[0]
+        o, mp = obs_files[label]
         cm = canon_model_py(mp)
         if cm is not None and cm != canon_obs_py(o):
             acc.disagree.append(("marshal.loads of python %s differs from the model's py_loads on a compiled file" % ver, {"file": label}, str(o)[:400], str(cm)[:400]))
@@ -592,18 +622,22 @@ def _run(ctx, proof, h, model, erg, acc, rng, vers, work):
         ctx.case(["file-in-python", label], nontrivial=o[0] >= 0)
 
     # ---- (4) CLI
-    k = ctx.scale(160, 1500)
-    pick = [i for i, v in enumerate(variants) if v[2] or v[0].startswith("nest")]
+    k = ctx.scale(70, 1500)
+    pick = [i for i, v in enumerate(variants) if v[2] or v[0].startswith("nest") or v[1] == "known"]
     rest = [i for i in range(len(variants)) if i not in set(pick)]
     rng.shuffle(rest)
     pick += rest[:k]
+    ctx.log("cli: %d files" % len(pick))
     cli = cli_read(ctx, erg, work, [blobs[i] for i in pick])
+    ctx.log("cli done")
     known = {e["id"]: e for e in ctx.known()}
     for i, c in zip(pick, cli):
         label, what, orig, b = variants[i]
         ctx.count("cli:%s" % ("crash" if c["crash"] else "rc=%d" % c["rc"]))
         ctx.cov["evaluations"] += 1
         case = {"file": label, "mutation": what, "bytes": b if len(b) <= 64 else b[:32] + ["... %d bytes" % len(b)], "full_bytes": b if len(b) < 6000 else None}
+        if what == "known" and not c["crash"]:
+            ctx.notes.append("NOTE stale-known-finding C15-disassembler: `erg --mode read` no longer crashes on its witness")
         if orig and (c["crash"] or c["rc"] != 0):
             acc.judge_fail.append(("`erg --mode read` fails on a file the compiler wrote", case, c, "judge_read_back (cli)"))
         elif c["crash"]:
